@@ -42,6 +42,17 @@ def mk_struct(bs, bidx):
     return mlmatrix.MLStructure(tuple(bs), tuple(np.array(p, dtype=np.uint32).reshape(-1, 2) for p in bidx))
 
 
+def dense_of(bs, bidx, data):
+    """dense matrix denoted by a data tensor over the level patterns (model-free, position by position)"""
+    rowsz = [b[0] for b in bs]; colsz = [b[1] for b in bs]
+    D = np.zeros((int(np.prod(rowsz)), int(np.prod(colsz))))
+    for mu in np.ndindex(*data.shape):
+        I = int(np.ravel_multi_index([bidx[k][mu[k]][0] for k in range(len(mu))], rowsz))
+        J = int(np.ravel_multi_index([bidx[k][mu[k]][1] for k in range(len(mu))], colsz))
+        D[I, J] += data[mu]
+    return D
+
+
 def rand_pattern(rng, m, n, dup=False):
     cells = [(i, j) for i in range(m) for j in range(n)]
     k = int(rng.integers(1, len(cells) + 1))
@@ -267,6 +278,23 @@ def run(ctx):
                 trip = sorted(zip(Ac.row.tolist(), Ac.col.tolist(), Ac.data.tolist()))
                 return plist(trip, lambda t: '%d,%d,%d' % (t[0], t[1], int(t[2])))
             add('asmat %s %s' % (sdesc, plist(Xd.ravel().astype(int).tolist())), g, ('asmat-history', bs, bidx, step))
+
+            # a matrix handed out by asmatrix() belongs to the caller: editing it in place must not
+            # change what the MLMatrix returns or applies afterwards
+            def h():
+                # ('coo' is left out: for one level asmatrix('coo') wraps the data tensor without a
+                #  copy — scipy's coo_matrix keeps the array it is given — which the property does not
+                #  forbid; recorded as an observation in docs/C15.md)
+                for fmt in ('csr', 'csc'):
+                    A0 = Mx.asmatrix(fmt)
+                    A0.data *= 3.0
+                    A0.data += 1.0
+                A = Mx.asmatrix('csr').tocoo(copy=True).tocsr()
+                A.sum_duplicates(); A.eliminate_zeros()
+                Ac = A.tocoo()
+                trip = sorted(zip(Ac.row.tolist(), Ac.col.tolist(), Ac.data.tolist()))
+                return plist(trip, lambda t: '%d,%d,%d' % (t[0], t[1], int(t[2])))
+            add('asmat %s %s' % (sdesc, plist(Xd.ravel().astype(int).tolist())), h, ('asmat-alias', bs, bidx, step))
         ctx.count('data-assignment histories')
 
     # direct ml_nonzero_nd on 2-3 level structures too (public cpdef)
@@ -407,6 +435,18 @@ def run(ctx):
                     K = reduce(np.kron, A)
                     if set(zip(IJ[0].tolist(), IJ[1].tolist())) != set(zip(*[x.tolist() for x in np.nonzero(K)])):
                         found = 'ml_nonzero_nd positions differ from the support of numpy.kron'
+            if m[0] == 'asmat-alias':
+                try:
+                    S = mk_struct(m[1], m[2])
+                    shape_ = tuple(len(p) for p in m[2])
+                    Xh = np.arange(1.0, 1.0 + int(np.prod(shape_))).reshape(shape_)
+                    Mh = mlmatrix.MLMatrix(structure=S, data=Xh.copy())
+                    A0 = Mh.asmatrix('csr'); A0.data *= 3.0
+                    if not np.array_equal(Mh.asmatrix('csr').toarray(), dense_of(m[1], m[2], Xh)):
+                        found = ('asmatrix() shares storage with a matrix handed out earlier: after the caller scaled that matrix in place, '
+                                 'asmatrix() no longer equals the dense matrix of the data')
+                except Exception as ex:
+                    found = 'asmatrix alias replay raised %s' % type(ex).__name__
             if m[0] == 'matvec-history':
                 try:
                     # replay the history on a fresh object; dense definition built position by position
